@@ -41,7 +41,7 @@ def src_case(pipe, items, **kw):
     return d
 
 
-def rand_lifetimes(rng, nkeys, maxlen, vals=(0, 1, 2, 3, 4), reuse=0.3, idxs=(0, 1, 2, 5, 9)):
+def rand_lifetimes(rng, nkeys, maxlen, vals=(-2, -1, 0, 1, 2, 3, 4), reuse=0.3, idxs=(0, 1, 2, 5, 9)):
     lts = []
     used = rng.sample(list(idxs), min(nkeys, len(idxs)))
     for idx in used:
@@ -123,7 +123,7 @@ def cases_c05(rng, thorough):
 
 
 def relevant_c05(n):
-    return n.startswith('roll-')
+    return n.startswith('roll-')     # includes roll-stray-event / roll-stray-child
 
 
 def nontrivial_c05(t):
@@ -388,7 +388,7 @@ def cases_c09(rng, thorough):
             lts = []
             for idx in rng.sample([0, 1, 2, 6], nk):
                 for _ in range(rng.choice([1, 1, 2])):
-                    lts.append((idx, G.ints([rng.randint(0, 3)
+                    lts.append((idx, G.ints([rng.randint(-3, 3)
                                              for _ in range(rng.randint(minlen, 6))])))
             cases.append(mux_case([op], G.schedule(rng, lts)))
         # all interleavings of two short keys
@@ -639,7 +639,8 @@ def cases_c03(rng, thorough):
 
 
 def relevant_c03(n):
-    return n.startswith('proto-') or n.endswith('-stray-child') or n == 'root-lifecycle'
+    return n.startswith('proto-') or n.endswith('-stray-child') or n.endswith('-stray-event') \
+        or n == 'root-lifecycle'
 
 
 def nontrivial_c03(t):
@@ -717,6 +718,87 @@ def nontrivial_c02(t):
     return slot_reused(t)
 
 
+# ======================================================================= plain-path extras
+
+def plain_sem_traces(cases):
+    """cases: (pipe, items).  Runs the plain (non multiplexed) code path; the oracle is
+    PlainSem (spec/PlainTrace.tla with oracle = "plain-sem")."""
+    out = []
+    for pipe, items in cases:
+        r = M.run_plain(pipe, items)
+        if r['end'] == 'error' and r.get('errtype') in ('SequenceContainsNoElementsError',
+                                                         'ZeroDivisionError'):
+            continue      # first/last/mean(reduce) on an empty sequence: RxPY raises by design
+        out.append({'pipe': pipe, 'modeled': True, 'oracle': 'plain-sem',
+                    'groups': [{'items': items, 'mux': [], 'muxerr': 0,
+                                'plain': [o['v'] for o in r['out']], 'plainend': r['end'],
+                                'plainerr': 0 if r['end'] != 'error' else max(1, min(r['endstep'], len(items)))}]})
+    return out
+
+
+def judge_plain(V, prop, traces, stats):
+    verdicts, st = C.validate_traces('PlainTrace', traces)
+    for k in ('states', 'transitions', 'tlc_runs'):
+        stats[k] = stats.get(k, 0) + st[k]
+    stats['traces'] = stats.get('traces', 0) + len(traces)
+    stats['plain_path_traces'] = stats.get('plain_path_traces', 0) + len(traces)
+    for tr, v in zip(traces, verdicts):
+        if v[0] == 'REJECT':
+            V.violation({'family': prop, 'ops': ' '.join(MC.op_names(tr['pipe'])),
+                         'pipe': json.dumps(tr['pipe'], sort_keys=True), 'mode': 'plain',
+                         'src': tr['groups'][0]['items'], 'plain': tr['groups'][0]['plain'],
+                         'plainend': tr['groups'][0]['plainend']}, v[2],
+                        detail='plain code path vs PlainSem')
+
+
+def extra_c10(V, rng, thorough, stats):
+    cases = []
+    keys = [('id', 0), ('modc', 2), ('modc', 3), ('mulc', -1)]
+    for (f, c) in keys:
+        for rev in (False, True):
+            op = {'op': 'sort', 'f': fn(f, c), 'reverse': rev}
+            for xs in seqs(range(-1, 3), 4 if thorough else 3):
+                cases.append(([op], G.ints(xs)))
+            for _ in range(40 if thorough else 10):
+                cases.append(([op], G.ints([rng.randint(-5, 9) for _ in range(rng.randint(0, 25))])))
+    # sort by the first component of pairs: ties between distinguishable items
+    for rev in (False, True):
+        op = {'op': 'sort', 'f': fn('fst'), 'reverse': rev}
+        for _ in range(60 if thorough else 20):
+            items = [['t', [I(rng.randint(0, 3)), I(j)]] for j in range(rng.randint(0, 12))]
+            cases.append(([op], items))
+    # the dual-mode sequence operators on the plain path
+    for op in [G.op_simple('first'), G.op_simple('last'), G.op_simple('take', n=0),
+               G.op_simple('take', n=2), G.op_simple('duc', f=fn('id')), G.op_simple('batch', n=1),
+               G.op_simple('batch', n=2), G.op_simple('batch', n=3)]:
+        vals = [I(0), I(1), I(2), NONE]
+        for xs in seqs(vals, 4 if thorough else 3):
+            if op['op'] in ('first', 'last') and not xs:
+                continue            # RxPY raises on an empty sequence by design
+            cases.append(([op], list(xs)))
+    judge_plain(V, 'C10', plain_sem_traces(cases), stats)
+
+
+def extra_c08(V, rng, thorough, stats):
+    names = [n for n in sorted(BRANCHES) if n not in ('roll',)]
+    cases = []
+    for join in ('merge', 'zip', 'combine_latest'):
+        for a, b in itertools.product(names, repeat=2):
+            if not thorough and rng.random() < 0.5:
+                continue
+            t = G.op_tee(join, [BRANCHES[a](), BRANCHES[b]()])
+            cases.append(([t], G.ints([rng.randint(-1, 4) for _ in range(rng.randint(0, 7))])))
+    for _ in range(300 if thorough else 60):
+        nb = rng.choice([2, 3, 4])
+        brs = [BRANCHES[rng.choice(names)]() for _ in range(nb)]
+        if rng.random() < 0.25:
+            brs[rng.randrange(nb)] = [G.op_tee(rng.choice(['merge', 'zip', 'combine_latest']),
+                                               [BRANCHES[rng.choice(names)](), BRANCHES[rng.choice(names)]()])]
+        t = G.op_tee(rng.choice(['merge', 'zip', 'combine_latest']), brs)
+        cases.append(([t], G.ints([rng.randint(-1, 4) for _ in range(rng.randint(0, 8))])))
+    judge_plain(V, 'C08', plain_sem_traces(cases), stats)
+
+
 # ======================================================================= registry
 
 PROPS = {
@@ -734,11 +816,11 @@ PROPS = {
                 rule='at least one segment closed by a predicate change and one by key completion'),
     'C07': dict(cases=cases_c07, relevant=relevant_c07, nontrivial=nontrivial_c07, lsc=['ts'],
                 rule='at least one window closed by a timeout or a closing item'),
-    'C08': dict(cases=cases_c08, relevant=relevant_c08, nontrivial=nontrivial_c08, lsc=[],
+    'C08': dict(cases=cases_c08, relevant=relevant_c08, nontrivial=nontrivial_c08, lsc=[], extra=extra_c08,
                 rule='branches emitting different numbers of items'),
     'C09': dict(cases=cases_c09, relevant=relevant_c09, nontrivial=nontrivial_c09, lsc=['int'],
                 rule='two keys with items alive in one run, or a re-used key slot'),
-    'C10': dict(cases=cases_c10, relevant=relevant_c10, nontrivial=nontrivial_c10, lsc=['seq', 'int'],
+    'C10': dict(cases=cases_c10, relevant=relevant_c10, nontrivial=nontrivial_c10, lsc=['seq', 'int'], extra=extra_c10,
                 rule='a key with at least two items'),
     'C11': dict(cases=cases_c11, relevant=relevant_c11, nontrivial=nontrivial_c11, lsc=['seq', 'int'],
                 rule='some output of the pipeline is emitted in the step of a source item '
@@ -770,7 +852,8 @@ def run_lsc(families, thorough):
     return C.par([lambda j=j: one(j) for j in jobs])
 
 
-UNIVERSAL = ('unexpected-stream-error', 'fatal-error-not-raised', 'fatal-error-wrong')
+UNIVERSAL = ('unexpected-stream-error', 'fatal-error-not-raised', 'fatal-error-wrong',
+             'untapped-differs')
 
 
 def main(prop):
@@ -796,6 +879,9 @@ def main(prop):
         stats = {}
         traces = MC.judge(V, cases, P['relevant'], stats, family=prop)
         V.phase('real executions + trace validation')
+        if 'extra' in P:
+            P['extra'](V, rng, thorough, stats)
+            V.phase('plain code path vs PlainSem')
         nt = MC.nontrivial_count(traces, P['nontrivial'])
         if stats.get('other_property_clauses'):
             V.note('clauses of other properties seen in this run (not violations of %s): %s'
@@ -813,8 +899,9 @@ def main(prop):
             'rule': P['rule'],
             'model_checking_runs': [{'module': 'ListSemCheck', 'family': f, 'constants': c,
                                      **r.summary()} for (f, c, r) in lsc] + extra_mc,
-            'trace_validation': {k: stats[k] for k in ('states', 'transitions', 'tlc_runs',
-                                                       'traces', 'rejected')},
+            'trace_validation': {k: stats.get(k, 0) for k in ('states', 'transitions', 'tlc_runs',
+                                                              'traces', 'rejected', 'untapped_runs',
+                                                              'plain_path_traces')},
             'distinct_pipelines': len({json.dumps(t['pipe'], sort_keys=True) for t in traces}),
             'source_events': sum(len(MC.log_of(t, [0])) for t in traces),
         }
